@@ -2466,7 +2466,19 @@ class NameCheckVisitor(node_visitor.ReplacingNodeVisitor):
                     if len(statement.targets) == 1 and not isinstance(
                         statement.targets[0], (ast.List, ast.Tuple)
                     ):
-                        replacement = self.remove_node(unused, statement)
+                        if any(
+                            isinstance(
+                                node, (ast.Call, ast.Await, ast.Yield, ast.YieldFrom)
+                            )
+                            for node in ast.walk(statement.value)
+                        ):
+                            # keep the right-hand side: it may be evaluated for its
+                            # side effects
+                            replacement = self.replace_node(
+                                statement, ast.Expr(value=statement.value), statement
+                            )
+                        else:
+                            replacement = self.remove_node(unused, statement)
                 elif isinstance(statement, ast.comprehension):
                     if isinstance(statement.target, ast.Tuple):
                         if not _all_names_unused(
